@@ -186,6 +186,22 @@ func registerMoreIntrinsics() {
 	in["context.Background"] = nil
 	delete(in, "context.Background")
 
+	in["internal/reflectlite.TypeOf"] = func(fr *frame, a []Value) Value {
+		itf := a[0].(Iface)
+		if itf.t == nil {
+			return Iface{}
+		}
+		rp := fr.x.eng.prog.ImportedPackage("internal/reflectlite")
+		if rp == nil {
+			abortf("reflectlite not loaded")
+		}
+		rt := rp.Type("rtype").Object().Type()
+		return Iface{t: rt, v: Struct{&Opaque{what: itf.t.String()}}}
+	}
+	in["(internal/reflectlite.rtype).Comparable"] = func(fr *frame, a []Value) Value { return fr.x.f.Bool(true) }
+	in["(internal/reflectlite.rtype).String"] = func(fr *frame, a []Value) Value {
+		return fr.x.strConst(a[0].(Struct)[0].(*Opaque).what)
+	}
 	in["runtime.Caller"] = inRuntimeCaller
 	in["runtime.Gosched"] = func(fr *frame, a []Value) Value { fr.x.yield(fr, "Gosched"); return nil }
 	// base64 (StdEncoding only: padded): the output region is filled with bytes that are
